@@ -70,7 +70,7 @@ def ism_case(case, ctx):
         # the same window was scanned before on sequences over a smaller alphabet
         A0 = A - 1
         m0 = ExactNet(A0, L, outs, n_args=len(case.get("args", [])), seed=case["seed"] + 1, container=case["container"])
-        X0 = gen.encode_batch(["".join(alpha[min(alpha.index(c), A0 - 1)] for c in s_) for s_ in seqs], alpha[:A0], X.dtype)
+        X0 = gen.encode_batch(["".join(c if c not in alpha else alpha[min(alpha.index(c), A0 - 1)] for c in s_) for s_ in seqs], alpha[:A0], X.dtype)
         try:
             saturation_mutagenesis(m0, X0, raw_outputs=True, **kw)
         except Exception:  # noqa: BLE001
@@ -140,6 +140,11 @@ def strategy(draw):
     alpha = gen.LETTERS[:A]
     seqs = [draw(st.text(alphabet=alpha, min_size=L, max_size=L)) for _ in range(B)]
     start = draw(st.one_of(st.just(0), st.integers(0, L - 1)))
+    if draw(st.integers(0, 3)) == 0:
+        # unknown characters are encoded as all-zero columns; put one at the first mutated position or anywhere
+        b_ = draw(st.integers(0, B - 1))
+        p_ = start if draw(st.booleans()) else draw(st.integers(0, L - 1))
+        seqs[b_] = seqs[b_][:p_] + "N" + seqs[b_][p_ + 1:]
     if draw(st.integers(0, 2)) == 0:
         end = None
     else:
